@@ -602,6 +602,8 @@ func (g *c18G) errStmt() string {
 		"\"s\"[10]",
 		"x, y = 1",
 		"range()",
+		"load(\"nosuch-file.ank\")",
+		"load(\"adir\")",
 	}
 	if n, ok := g.pkgs["strings"]; ok {
 		cands = append(cands, n+".NoSuchFunction(\"a\")", n+".Repeat(\"a\", -1)", n+".ToUpper(1, 2)")
@@ -1120,6 +1122,13 @@ var c18FixedScripts = []c18Fixed{
 	{Name: "pkg-json", Src: "json = import(\"encoding/json\")\nb, err = json.Marshal([1, \"a\", true, nil])\nprintln(toString(b), err)\n"},
 	{Name: "pkg-go-panic-becomes-error", Src: "strings = import(\"strings\")\nprintln(\"a\")\nstrings.Repeat(\"a\", -1)\nprintln(\"never\")\n"},
 	{Name: "core-builtins", Src: "println(keys({\"a\": 1}), range(3), typeOf(1), kindOf(\"s\"), defined(\"args\"), defined(\"zz\"), toInt(\"12\"), toString(5), toFloat(2), toBool(\"true\"))\n"},
+	{Name: "load-missing-top-level", Src: "println(\"a\")\nload(\"nosuch-file.ank\")\nprintln(\"never\")\n"},
+	{Name: "load-missing-in-function", Src: "func f() {\n  load(\"nosuch-file.ank\")\n}\nprintln(\"a\")\nf()\nprintln(\"never\")\n"},
+	{Name: "load-missing-caught", Src: "try {\n  load(\"nosuch-file.ank\")\n} catch e {\n  println(\"caught\")\n}\nprintln(\"after\")\n"},
+	{Name: "load-directory", Src: "println(\"a\")\nload(\"adir\")\n"},
+	{Name: "load-uses-loader-names", Src: "shared = 41\nfunc twice(v) { return v * 2 }\nload(\"lib.ank\")\nprintln(fromlib, defined(\"fromlib\"))\n"},
+	{Name: "load-with-parse-error", Src: "println(\"a\")\nload(\"badlib.ank\")\nprintln(\"never\")\n"},
+	{Name: "defined-own-names", Src: "x = 1\nfunc f() { return 2 }\nvar y = 3\nmodule M { z = 1 }\nprintln(defined(\"x\"), defined(\"f\"), defined(\"y\"), defined(\"M\"), defined(\"nope\"), defined(\"println\"))\nfunc g() { var loc = 1\n return [defined(\"loc\"), defined(\"x\")] }\nprintln(g())\n"},
 	{Name: "big-output", Src: "s = \"0123456789abcdefghijklmnopqrstuvwxyz0123456789abcdefghijklmnopqrstuvwxyz\"\nfor i in range(4000) {\n  println(i, s)\n}\n"},
 	{Name: "big-output-then-error", Src: "for i in range(3000) {\n  println(\"line\", i, \"........................................\")\n}\nnosuch\n"},
 	{Name: "args-count", Src: "println(len(args))\n", Args: true},
@@ -1182,6 +1191,8 @@ func c18Setup(c *wk.Case) (*c18Ctx, func()) {
 	os.Mkdir(filepath.Join(x.dir, "adir"), 0o755)
 	os.Mkdir(filepath.Join(x.dir, "dir.ank"), 0o755)
 	os.WriteFile(filepath.Join(x.dir, "other.ank"), []byte("println(\"OTHER SCRIPT MUST NOT RUN\")\n"), 0o644)
+	os.WriteFile(filepath.Join(x.dir, "lib.ank"), []byte("println(\"lib sees\", shared, twice(shared))\nfromlib = shared + 1\n"), 0o644)
+	os.WriteFile(filepath.Join(x.dir, "badlib.ank"), []byte("println(\"badlib\")\nx = = 1\n"), 0o644)
 	return x, func() { os.RemoveAll(x.dir) }
 }
 
